@@ -293,6 +293,8 @@ type Opts struct {
 	MaxAmmoSize int
 	// SourcePath (grpc/json): name the ammo file through `source: {type: file, path: …}` instead of `file:`
 	SourcePath bool
+	// NoFile: the ammo file does not exist (providers that open it inside Run: grpc/json, the generic JSON provider)
+	NoFile bool
 }
 
 // ScanDecoder drives an http decoder DIRECTLY (decoders.NewDecoder over a mem file, the configuration's
@@ -364,8 +366,10 @@ func BuildFSOpt(kind string, preload bool, limit, passes int, es []Entry, chosen
 		name = filepath.Join(dir, filepath.Base(name))
 	}
 	content = applyEOF(kind, content, eof)
-	if err := afero.WriteFile(base, name, []byte(content), 0644); err != nil {
-		return nil, err
+	if !opts.NoFile {
+		if err := afero.WriteFile(base, name, []byte(content), 0644); err != nil {
+			return nil, err
+		}
 	}
 	audit := &AuditFs{Fs: base}
 	var fs afero.Fs = audit
